@@ -206,11 +206,19 @@ func main() {
 		if blk.Kind != "func" || blk.Inline {
 			continue
 		}
+		ghostOnly := false
 		if blk.Trusted {
-			if blk.used || true {
-				rep.Assumed = append(rep.Assumed, "trusted (body not verified) "+blk.Name)
+			rep.Assumed = append(rep.Assumed, "trusted (body not verified) "+blk.Name)
+			// a trusted function may still carry ghost assertions (before/after a call, loop exit): its body is then
+			// executed for those alone, every other obligation being assumed
+			for _, c := range blk.Clauses {
+				if c.Kind == "before" || c.Kind == "after" || c.Kind == "loop-exit" {
+					ghostOnly = true
+				}
 			}
-			continue
+			if !ghostOnly {
+				continue
+			}
 		}
 		if re != nil && !re.MatchString(blk.Name) {
 			continue
@@ -232,7 +240,12 @@ func main() {
 			rep.Functions = append(rep.Functions, FnReport{Name: blk.Name, Props: blk.Props, Errors: []string{"unbound contract"}})
 			continue
 		}
-		ex := w.verifyFunction(fn, blk, opts)
+		o2 := *opts
+		o2.GhostOnly = ghostOnly
+		if ghostOnly {
+			o2.Vacuity = false
+		}
+		ex := w.verifyFunction(fn, blk, &o2)
 		fr := FnReport{Name: blk.Name, Props: blk.Props, Paths: ex.paths, Exits: ex.exits, NObl: len(ex.obls), Errors: ex.errs}
 		if fn.Pos().IsValid() {
 			p := w.prog.Fset.Position(fn.Pos())
